@@ -8,6 +8,7 @@ R_TRUST = [
 O_TRUST = [
     "engine S (harness/src/engine): term-recording scalar `Sym`, DFS path explorer, SMT-LIB emission",
     "mode O: IEEE comparison semantics bit-precise (SMT FloatingPoint sort), arithmetic as uninterpreted functions (sound over-approximation)",
+    "IEEE refinement: a counterexample admitted by the uninterpreted arithmetic is re-decided with + - * / as the IEEE-754 operations (z3 / cvc5 QF_FP, fresh process); unsat discharges the obligation, sat yields real doubles for the native replay; % / rem_euclid / powi stay uninterpreted",
 ]
 
 HOOKS = {
@@ -192,11 +193,13 @@ PROPS = {
         "explanation": "Periodic boundary with extrapolation, mode R on the concrete axis family with symbolic periodic data: (1) the specification's wrap w(q) = x0 + rem_euclid(q - x0, P) maps x + kP to x for an "
                        "UNBOUNDED integer k (cvc5, mixed integer/real arithmetic); (2) on a grid of concrete abscissae (every knot, 3 interior points per interval, k in {-3,-1,1,2}) S_ext(x + kP) = S(x) is decided "
                        "for all data values, and for a symbolic out-of-range query the extrapolating interpolator returns the same recorded term as a non-extrapolating one queried at w(q) inside the same execution "
-                       "(same hash-consed node, or a solver query); (3) periodic images of both range ends evaluate to y_0. Mode O: no non-NaN query is rejected or panics.",
+                       "(same hash-consed node, or a solver query); (3) periodic images of both range ends evaluate to y_0. Mode O: no non-NaN query is rejected or panics. "
+                       "Layer F (IEEE path witnesses): on concrete origin-0 axes in units 2^0, 2^-700, 2^600 every feasible path of the real code x 8 query strata (near / 2^60 / 2^400 periods away, out of range by < 2^-300 periods) is decided "
+                       "feasible or not with IEEE-754 semantics for + - * / (z3 QF_FP bit-precise), and the model is run natively against the non-extrapolating spline at the independently wrapped argument (integer arithmetic on the binary expansions).",
         "trusted_base": R_TRUST + ["cvc5 1.0 (primary solver for the integer/real wrap obligations; z3 does not decide them)"],
-        "technique": "symbolic execution at a term-recording scalar + cvc5/z3: unbounded-integer wrap arithmetic (QF_LIRA), term identity / QF_NRA for evaluation at the wrapped argument, QF_LRA on a concrete query grid for all data",
+        "technique": "symbolic execution at a term-recording scalar + cvc5/z3: unbounded-integer wrap arithmetic (QF_LIRA), term identity / QF_NRA for evaluation at the wrapped argument, QF_LRA on a concrete query grid for all data; bit-precise QF_FP path-feasibility queries whose models (rounding-only paths such as absorption or underflow included) are replayed natively against an integer-arithmetic wrap oracle",
         "level_text": "Bounded symbolic model checking: periodicity is decided for every integer period count in the wrap arithmetic, for all data values on the concrete query grid, and for all real queries whenever the implementation wraps the way the specification does (term identity). Symbolic-query obligations the solvers leave undecided are reported inconclusive, never passed.",
-        "level_note": "Trusted: engine S, cvc5, z3. Real-number semantics: 'up to rounding of the wrapped argument' is not decided. Concrete axis family, n <= 5 quick / 7 thorough. Infinite queries excluded (the property speaks of finite queries).",
+        "level_note": "Trusted: engine S, cvc5, z3. Real-number semantics in the algebraic layers; the floating-point side is covered by one solver-chosen witness per path x magnitude stratum (layer F), not for all values. Concrete axis family, n <= 5 quick / 7 thorough. Infinite queries excluded (the property speaks of finite queries).",
     },
     "C05": {
         "bin": "c05",
